@@ -82,6 +82,8 @@ func c13(w *core.World, r *core.Report) {
 
 	r.Rule("R13.6", "transaction buffer: fresh at MULTI, dropped after EXEC, append-only; a mirrored transaction emits nothing", 4)
 	ruleTxnBuffer(w, r)
+	r.Rule("R13.10", "the marker is volatile: the recogniser of the tool's own transactions steps over the master's lazy-expiry DEL / UNLINK of the marker in front of the marker SET", 1)
+	ruleMirroredTxnToleratesLazyExpiry(w, r)
 	r.Rule("R10.4", "the tool's own checkpoint and registry prefixes are on the key black list whatever the operator configured: bookkeeping traffic is never forwarded (shared with C10)", 1)
 	ruleBookkeepingPrefixes(w, r)
 	r.Rule("R19.5", "a mirrored transaction is dispatched again only after a resolved redirect: re-sending it after a lost connection applies the unit twice, both times with a marker (shared with C19)", 3)
